@@ -15,7 +15,7 @@ inductive K | same | asSlice | asMutSlice
   deriving DecidableEq
 inductive M | get | getUnchecked | index | getMut | getUncheckedMut | indexMut
   deriving DecidableEq
-inductive Acc | leafUnchecked | leafUncheckedMut | leafIndex | leafIndexMut
+inductive Acc | leafUnchecked | leafUncheckedMut | leafIndex | leafIndexMut | leafGet | leafGetMut
   deriving DecidableEq
 inductive B | ite (c : C) (t e : B) | some (b : B) | none | unit | panic | call (m : M) (i : I) (k : K) | cont (k : K)
   | build (leaf : Acc) (nested : M) | opaque (s : String)
@@ -30,6 +30,27 @@ inductive Prof | debug | release
 /-- struct shape: a field is a leaf array or a nested SoA -/
 inductive Shape | leaf | nest (fs : List Shape)
 
+/-- the lengths of the field arrays of one container, as a tree: in lockstep they are all
+    equal (`LT.uniform`), but the fields are public and safe code can make them differ -/
+inductive LT | leaf (n : Nat) | nest (fs : List LT)
+
+def LT.leaves : LT → List Nat
+  | .leaf n => [n]
+  | .nest fs => leavesL fs
+where leavesL : List LT → List Nat
+  | [] => []
+  | f :: fs => f.leaves ++ leavesL fs
+
+/-- length of the first field array (what the generated `len()` returns) -/
+def LT.first (t : LT) : Nat := t.leaves.headD 0
+
+def LT.uniform (n : Nat) : Shape → LT
+  | .leaf => .leaf n
+  | .nest fs => .nest (uniformL n fs)
+where uniformL (n : Nat) : List Shape → List LT
+  | [] => []
+  | f :: fs => LT.uniform n f :: uniformL n fs
+
 def MAX : Nat := 18446744073709551615
 
 structure IV where
@@ -41,7 +62,7 @@ structure IV where
 
 inductive Err | panic | ub | stuck
   deriving DecidableEq, Repr
-inductive V | win (s l : Nat) | none_ | some_ (v : V)
+inductive V | win (s l : Nat) | none_ | some_ (v : V) | early   -- `early`: a `?` returned `None` from the enclosing function
   deriving DecidableEq, Repr
 inductive R | ok (v : V) | err (e : Err)
   deriving DecidableEq, Repr
@@ -52,36 +73,43 @@ def addU (p : Prof) (x y : Nat) : Option Nat :=
     | .debug => none                       -- overflow check panics
     | .release => some (x + y - (MAX + 1))   -- wraps
 
-/-- none = overflow panic; stuck terms evaluate to MAX+1 sentinel via `bad` flag -/
-def evalA (p : Prof) (n : Nat) (iv : IV) : A → Option Nat
+/-- the generated `len()`: the first field's length; a debug build asserts that every other
+    field agrees and panics (`none`) otherwise -/
+def LT.lenChecked (p : Prof) (t : LT) : Option Nat :=
+  match p with
+  | .release => some t.first
+  | .debug => if t.leaves.all (· == t.first) then some t.first else none
+
+/-- none = overflow panic (or a failed debug assertion in `len()`) -/
+def evalA (p : Prof) (t : LT) (iv : IV) : A → Option Nat
   | .self => some iv.pos
   | .start => some iv.start
   | .end_ => some iv.end_
   | .max => some MAX
-  | .lenChecked => some n      -- lockstep: the debug assertion passes
-  | .lenFirst => some n
+  | .lenChecked => t.lenChecked p
+  | .lenFirst => some t.first
   | .lit k => some k
-  | .add a b => match evalA p n iv a, evalA p n iv b with
+  | .add a b => match evalA p t iv a, evalA p t iv b with
     | some x, some y => addU p x y
     | _, _ => none
   | .none => none
   | .opaque _ => none
 
-def evalC (p : Prof) (n : Nat) (iv : IV) : C → Option Bool
-  | .lt a b => match evalA p n iv a, evalA p n iv b with | some x, some y => some (decide (x < y)) | _, _ => none
-  | .le a b => match evalA p n iv a, evalA p n iv b with | some x, some y => some (decide (x ≤ y)) | _, _ => none
-  | .eq a b => match evalA p n iv a, evalA p n iv b with | some x, some y => some (decide (x = y)) | _, _ => none
-  | .and c d => match evalC p n iv c with
-    | some true => evalC p n iv d
+def evalC (p : Prof) (t : LT) (iv : IV) : C → Option Bool
+  | .lt a b => match evalA p t iv a, evalA p t iv b with | some x, some y => some (decide (x < y)) | _, _ => none
+  | .le a b => match evalA p t iv a, evalA p t iv b with | some x, some y => some (decide (x ≤ y)) | _, _ => none
+  | .eq a b => match evalA p t iv a, evalA p t iv b with | some x, some y => some (decide (x = y)) | _, _ => none
+  | .and c d => match evalC p t iv c with
+    | some true => evalC p t iv d
     | some false => some false
     | none => none
   | .opaque _ => none
 
-def evalI (p : Prof) (n : Nat) (iv : IV) : I → Option IV
+def evalI (p : Prof) (t : LT) (iv : IV) : I → Option IV
   | .self => some iv
-  | .range a b => match evalA p n iv a, evalA p n iv b with
+  | .range a b => match evalA p t iv a, evalA p t iv b with
     | some x, some y => some { form := .range, start := x, end_ := y } | _, _ => none
-  | .rangeIncl a b => match evalA p n iv a, evalA p n iv b with
+  | .rangeIncl a b => match evalA p t iv a, evalA p t iv b with
     | some x, some y => some { form := .rangeIncl, start := x, end_ := y } | _, _ => none
   | .opaque _ => none
 
@@ -90,58 +118,74 @@ def kindAfter : Kind → K → Kind
   | _, .asSlice => .slice
   | _, .asMutSlice => .sliceMut
 
-def Acc.checked : Acc → Bool
-  | .leafIndex | .leafIndexMut => true
-  | _ => false
+/-- how a per-field accessor reacts to an index outside its field array -/
+inductive Mode | unchecked | checked | try_
+  deriving DecidableEq
 
-/-- leaf access on a field of length n -/
-def leafAcc (n : Nat) (iv : IV) (checked : Bool) : R :=
+/-- `get_unchecked*`: undefined behaviour; `&f[i]`: panic; `f.get(i)?`: `None` from the function -/
+def Acc.mode : Acc → Mode
+  | .leafUnchecked | .leafUncheckedMut => .unchecked
+  | .leafIndex | .leafIndexMut => .checked
+  | .leafGet | .leafGetMut => .try_
+
+def oob : Mode → R
+  | .unchecked => .err .ub
+  | .checked => .err .panic
+  | .try_ => .ok .early
+
+/-- leaf access on a field array of length n -/
+def leafAcc (n : Nat) (iv : IV) (m : Mode) : R :=
   match iv.form with
-  | .pos => if iv.pos < n then .ok (.win iv.pos 1) else .err (if checked then .panic else .ub)
-  | .range => if iv.start ≤ iv.end_ ∧ iv.end_ ≤ n then .ok (.win iv.start (iv.end_ - iv.start))
-              else .err (if checked then .panic else .ub)
+  | .pos => if iv.pos < n then .ok (.win iv.pos 1) else oob m
+  | .range => if iv.start ≤ iv.end_ ∧ iv.end_ ≤ n then .ok (.win iv.start (iv.end_ - iv.start)) else oob m
   | _ => .err .stuck
 
-/-- builder over a shape: fields in order, first error wins, all windows must agree -/
-def buildShape (n : Nat) (iv : IV) (checked : Bool) : Shape → R
-  | .leaf => leafAcc n iv checked
+/-- the struct literal `T { f: acc(slice.f), … }`: fields in declaration order, each with ITS OWN
+    length; the first error / early `None` wins; windows must agree -/
+def buildLT (iv : IV) (m : Mode) : LT → R
+  | .leaf n => leafAcc n iv m
   | .nest fs => go fs
-where go : List Shape → R
+where go : List LT → R
   | [] => .err .stuck
-  | [f] => buildShape n iv checked f
-  | f :: g :: fs => match buildShape n iv checked f with
+  | [f] => buildLT iv m f
+  | f :: g :: fs => match buildLT iv m f with
     | .err e => .err e
+    | .ok .early => .ok .early
     | .ok v => match go (g :: fs) with
       | .err e => .err e
+      | .ok .early => .ok .early
       | .ok w => if v = w then .ok v else .err .stuck
 
 def sliceKind : Kind → Kind
   | .sliceMut | .vecMut => .sliceMut
   | _ => .slice
 
-def eval (table : Kind → Form → M → Option B) (p : Prof) (n : Nat) (sh : Shape) : Nat → Kind → IV → B → R
+def eval (table : Kind → Form → M → Option B) (p : Prof) (t : LT) : Nat → Kind → IV → B → R
   | 0, _, _, _ => .err .stuck
   | fuel+1, kind, iv, b =>
     match b with
-    | .ite c t e => match evalC p n iv c with
-      | some true => eval table p n sh fuel kind iv t
-      | some false => eval table p n sh fuel kind iv e
+    | .ite c th e => match evalC p t iv c with
+      | some true => eval table p t fuel kind iv th
+      | some false => eval table p t fuel kind iv e
       | none => .err .panic
-    | .some b => match eval table p n sh fuel kind iv b with
+    | .some b => match eval table p t fuel kind iv b with
+      | .ok .early => .ok .none_          -- a `?` inside `Some(…)` returned `None`
       | .ok v => .ok (.some_ v)
       | .err e => .err e
     | .none => .ok .none_
     | .panic => .err .panic
     | .unit => .err .stuck
-    | .cont _ => .ok (.win 0 n)
-    | .call m i k => match evalI p n iv i with
+    | .cont _ => .ok (.win 0 t.first)
+    | .call m i k => match evalI p t iv i with
       | none => .err .panic
       | some iv' => match table (kindAfter kind k) iv'.form m with
-        | some b' => eval table p n sh fuel (kindAfter kind k) iv' b'
+        | some b' => eval table p t fuel (kindAfter kind k) iv' b'
         | none => .err .stuck
     | .build la nm =>
-      -- the nested accessor must be this very builder again (checked on the extracted table)
-      if table (sliceKind kind) iv.form nm = some (.build la nm) then buildShape n iv la.checked sh
+      -- the accessor used for nested fields must be this very builder again (checked on the
+      -- extracted table), possibly wrapped in `Some(…)` for the `?`-style accessors
+      if table (sliceKind kind) iv.form nm = some (.build la nm) ∨
+         table (sliceKind kind) iv.form nm = some (.some (.build la nm)) then buildLT iv la.mode t
       else .err .stuck
     | .opaque _ => .err .stuck
 
